@@ -182,6 +182,13 @@ struct LeafRef
     return a0;
   }
 };
+// one registration delivered by notify_callbacks(): the trackable starts its "second life"
+static void first_life(sigc::trackable& t)
+{
+  static sigc::notifiable d;
+  t.add_destroy_notify_callback(&d, [](sigc::notifiable*) {});
+  t.notify_callbacks();
+}
 struct Catcher
 {
   long c;
